@@ -361,7 +361,10 @@ func buildCases() []kase {
 				ntext++
 			}
 		}
-		for _, v := range []any{"12", "-12", "+7", "007", "", "-", "1x", "9223372036854775807", "9223372036854775808", "-9223372036854775808", "1_0", " 1", "1.5", "-0", "123456789012345", "1234567890123456", "abc", "inf", "NaN", "0x10", "1e3"} {
+		for _, v := range []any{"12", "-12", "+7", "007", "", "-", "1x", "9223372036854775807", "9223372036854775808", "-9223372036854775808", "1_0", " 1", "1.5", "-0", "123456789012345", "1234567890123456", "abc", "inf", "NaN", "0x10", "1e3",
+			"0.1", "1e-5", ".5", "5.", ".", "1e", "e5", "+.5e+1", "1.5.2", "1E3", "-0.0", "00012.500", "1e400", "-1e400", "1e-400", "4.9e-324", "2e-324",
+			"2.5e-324", "0.30000000000000004", "1.7976931348623157e308", "1.7976931348623159e308", "123456789012345678901234567890",
+			"9007199254740993", "9007199254740992.5", "1e22", "1e23", "8.41e21", "0.000001", "1 ", "+", "1e+", "1e5e", "Infinity", "pin", "2.2250738585072011e-308"} {
 			add("int", v)
 			add("float", v)
 		}
@@ -371,6 +374,51 @@ func buildCases() []kase {
 			add("string", v)
 		}
 		rep.Exhaustive = append(rep.Exhaustive, fmt.Sprintf("text box: tolower toupper title trim split include replace substr join int float string on every combination of %d texts (repeats, overlaps, blanks, upper case, the characters next to the letters), %d start/count values and lists of at most 3 strings, plus number texts and floats at the int64 boundary: %d plans, model = implementation = Spec.describe", len(tp), len(ip), ntext))
+	}
+
+	// order box: every argument of the text/list functions leaves a trace ($.asm.t<i>) when it is evaluated, and
+	// exactly one argument has a kind the function rejects: the traces left when the error is raised show the order
+	// of evaluation and that the function stops at the first failed assertion
+	{
+		good := map[string][]any{
+			"tolower": {"a"}, "toupper": {"a"}, "title": {"a"}, "trim": {"a", "a"}, "replace": {"a", "a", "b"}, "split": {"a", ","},
+			"substr": {"abc", int64(1), int64(1)}, "join": {[]any{"list", "a"}, ","}, "int": {int64(1)}, "float": {int64(1)},
+			"string": {int64(1), "%d"}, "reverse": {[]any{"list", int64(1)}}, "append": {[]any{"list", int64(1)}, int64(2)},
+			"include": {[]any{"list", int64(1)}, int64(1)}, "sort": {[]any{"list", int64(1)}},
+		}
+		var names []string
+		for f := range good {
+			names = append(names, f)
+		}
+		sortStrings(names)
+		norder := 0
+		for _, f := range names {
+			gs := good[f]
+			for j := -1; j < len(gs); j++ { // j = -1: all arguments good
+				// a rejected kind (a map, nil), or an argument whose own evaluation raises the error ([not]: wrong arity)
+				for _, bad := range []any{map[string]any{}, nil, []any{"list", []any{"not"}}} {
+					args := make([]any, 0, len(gs)+1)
+					for i, v := range gs {
+						if i == j {
+							v = bad
+						}
+						args = append(args, []any{"asm", []any{"set", fmt.Sprintf("$.asm.t%d", i), int64(i)}, []any{"quote", v}})
+						if lst, isList := v.([]any); isList && len(lst) > 0 && lst[0] == "list" {
+							args[len(args)-1] = []any{"asm", []any{"set", fmt.Sprintf("$.asm.t%d", i), int64(i)}, v}
+						}
+					}
+					if f == "sort" {
+						args = append(args, "@")
+					}
+					emit(kase{stream: "orderbox", plan: render([]any{[]any{"set", "$.asm.r", append([]any{f}, args...)}}), root: boxRoot, alias: true})
+					norder++
+					if j == -1 {
+						break
+					}
+				}
+			}
+		}
+		rep.Exhaustive = append(rep.Exhaustive, fmt.Sprintf("order box: each of the %d text/list functions with every argument leaving a trace when evaluated and each argument in turn of a rejected kind (a map, nil) or raising the error itself ([not]): %d plans, model = implementation on the traces left at the error", len(names), norder))
 	}
 
 	// copy box: the functions documented to return a NEW array (reverse, sort, append, getall, split, list) get a
